@@ -74,10 +74,17 @@ def xml_parts(prs):
 _BASE = {}
 
 
+def _blob(init):
+    if init.startswith("bench:"):
+        from mc.props import c09_catalog as cat
+        return cat.bench_bytes(init[len("bench:"):])
+    return prs_ops.initial_blob(init)
+
+
 def base_errors(init):
     """dict partname -> (sha1, error set) of the initial deck, through the same pipeline."""
     if init not in _BASE:
-        prs = F.open_prs(prs_ops.initial_blob(init))
+        prs = F.open_prs(_blob(init))
         d = {}
         for pn, blob in xml_parts(prs).items():
             d[pn] = (hashlib.sha1(blob).digest(), part_errors(blob))
@@ -128,7 +135,9 @@ def _kind_of(sh):
 def run_case(case):
     """case: {"init":..., "layout": int|None, "slide": int|None, "shape": int|None, "steps": [[tag, name], ...]}
     Returns (outcome label, prs, changed flag) — executes on the real implementation."""
-    prs = F.open_prs(prs_ops.initial_blob(case["init"]))
+    prs = F.open_prs(_blob(case["init"]))
+    if case.get("cat"):
+        return _run_cat(prs, case), prs
     if case.get("layout") is not None:
         slide = prs.slides.add_slide(prs.slide_layouts[case["layout"]])
     else:
@@ -171,6 +180,53 @@ def run_case(case):
     return label, prs
 
 
+def _run_cat(prs, case):
+    """Steps from the C09 property catalogue: [[kind, property, value label], ...] on the workbench deck. Every
+    value class is applied (valid, None, out-of-domain, loosely documented); a rejection is a legal outcome."""
+    from mc.props import c09_catalog as cat
+    label = "ok"
+    for kn, pn, vl in case["cat"]:
+        K = cat.kind(kn)
+        P = K.prop(pn)
+        V = P.value(vl)
+        try:
+            obj = cat.resolve(prs, K.path)
+            value = cat.mk(V.spec, prs)
+            if P.setter:
+                cat.ACCESSORS[P.setter][1](obj, value)
+            else:
+                setattr(obj, P.name, value)
+            label = "accepted"
+        except (TypeError, ValueError):
+            label = "rejected"
+        except Exception as e:  # noqa: BLE001
+            label = "raised:%s" % type(e).__name__
+    return label
+
+
+def cat_cases(thorough):
+    from mc.props import c09_catalog as cat
+    cases = []
+    for K in cat.kinds():
+        if not str(K.deck).startswith("bench"):
+            continue
+        init = "bench:" + K.deck
+        singles = [(P.name, V.label) for P in K.settable for V in P.alphabet(thorough)]
+        for pn, vl in singles:
+            cases.append({"init": init, "cat": [[K.name, pn, vl]], "steps": [["cat", "%s.%s=%s" % (K.name, pn, vl)]]})
+        if not K.pairs:
+            continue
+        pa = [(P.name, V.label) for P in K.settable for V in P.pair_alphabet(thorough)]
+        inv = [(P.name, V.label) for P in K.settable for V in P.alphabet(thorough) if V.cls in ("invalid", "either")]
+        # rejected call first, then a valid assignment (and vice versa): a rejection must not leave debris that a
+        # later operation turns into an invalid part
+        for a in pa + inv:
+            for b in pa:
+                cases.append({"init": init, "cat": [[K.name, a[0], a[1]], [K.name, b[0], b[1]]],
+                              "steps": [["cat", "%s.%s=%s" % (K.name, a[0], a[1])], ["cat", "%s.%s=%s" % (K.name, b[0], b[1])]]})
+    return cases
+
+
 def check_case(part, case):
     label, prs = run_case(case)
     steps = ">".join(n for _, n in case["steps"])
@@ -183,7 +239,14 @@ def check_case(part, case):
         return
     base = base_errors(case["init"])
     changed = False
-    for pn, blob in xml_parts(prs).items():
+    try:
+        parts_now = xml_parts(prs)
+    except Exception as e:  # noqa: BLE001  the package can no longer be walked / serialised at all
+        sig = "C03|parts-unreadable|%s|after=%s" % (type(e).__name__, case["steps"][-1][1] if label != "ok" or True else "")
+        part.violation(sig, "init=%s %s steps=%s (%s): iterating/serialising the parts raised %r" % (case["init"], _loc(case), steps, label, e),
+                       dict(case, signature=sig))
+        return
+    for pn, blob in parts_now.items():
         h = hashlib.sha1(blob).digest()
         b = base.get(pn)
         if b is not None and b[0] == h:
@@ -195,7 +258,9 @@ def check_case(part, case):
             continue
         allowed = b[1] if (b is not None and b[1] is not None) else frozenset()
         for path, msg in sorted(errs - allowed):
-            sig = "C03|xsd|%s|%s|%s" % (_part_kind(pn), re.sub(r"^/", "", path), _norm_msg(msg))
+            # signature: part kind + the offending element with its parent (not the whole path: the same defect
+            # shows under p:sp, p:pic, a:tc ... alike) + normalised message
+            sig = "C03|xsd|%s|%s|%s" % (_part_kind(pn), "/".join(path.split("/")[-2:]), _norm_msg(msg))
             part.violation(sig, "init=%s %s steps=%s (%s): %s: %s @ %s" % (
                 case["init"], _loc(case), steps, label, pn, msg, path), dict(case, signature=sig))
     if changed:
@@ -205,6 +270,8 @@ def check_case(part, case):
 
 
 def _loc(case):
+    if case.get("cat"):
+        return "workbench"
     if case.get("layout") is not None:
         return "new-slide(layout=%d)" % case["layout"]
     return "slide=%s shape=%s" % (case.get("slide"), case.get("shape"))
@@ -290,7 +357,7 @@ def corpus_cases(thorough):
 
 def run(ctx):
     xsd.SchemaSet.get(False)  # compile before forking
-    d = default_cases(ctx.thorough)
+    d = default_cases(ctx.thorough) + cat_cases(ctx.thorough)
     c = corpus_cases(ctx.thorough)
     ctx.extra["histories_default_deck"] = len(d)
     ctx.extra["histories_corpus"] = len(c)
